@@ -13,7 +13,7 @@ import registry  # noqa: E402
 
 ROOT = pathlib.Path("/verif")
 MODS = {
-    "C01": "WriterSpec, WriterImpl", "C02": "ExportSpec",
+    "C01": "WriterSpec, WriterImpl, WriterTrace", "C02": "ExportSpec",
     "C03": "FilterSpec, FilterImpl, FilterTrace",
     "C04": "HierarchySpec, HierarchyImpl, HierarchyTrace",
     "C05": "EmodulusSpec, EmodulusTrace",
